@@ -188,6 +188,16 @@ def obs_coq(o):
 
 
 # ------------------------------------------------------------------ running an action
+LEADS = [[], [], [3], [1], [2, 3], [5, 1], [2, 1, 3], [4, 2]]       # leading axes (channels, trials, ...): 1 to 4 dims in all
+
+
+def series_data(a):
+    """the data array of a TimeSeries action: time is the last axis; any leading axes; optionally nested lists"""
+    shape = list(a.get("lead") or []) + [a["len"]]
+    d = np.zeros(shape)
+    return d.tolist() if a.get("aslist") else d
+
+
 def run_action(a):
     import nitime.timeseries as ts
     import resource
@@ -227,10 +237,10 @@ def run_action(a):
                     kw[kk] = mk_val(ts, a[k])
             kw["time_unit"] = a["unit"]
             if a.get("positional"):
-                s = ts.TimeSeries(np.zeros(a["len"]), kw.get("t0"), kw.get("sampling_interval"), kw.get("sampling_rate"),
+                s = ts.TimeSeries(series_data(a), kw.get("t0"), kw.get("sampling_interval"), kw.get("sampling_rate"),
                                   kw.get("duration"), kw.get("time"), kw["time_unit"])
             else:
-                s = ts.TimeSeries(np.zeros(a["len"]), **kw)
+                s = ts.TimeSeries(series_data(a), **kw)
             o = {"t": "series", "dt": int(s.sampling_interval), "t0": int(s.t0), "dur": int(s.duration),
                  "rate": float(s.sampling_rate).hex(), "unit": s.time_unit}
             try:
@@ -269,8 +279,9 @@ def action_coq(a, o):
             data, ozl(a.get("length")), oval(a.get("duration")), oval(a.get("rate")), oval(a.get("si")),
             oval(a.get("t0")), uarg_coq(a["unit"]))
     tm = "None" if a.get("time") is None else given_axis_coq(a["time"], o.get("time_obs"))
-    return "(ATs (mk_ts_args %s %s %s %s %s %s %s))" % (
-        zlit(a["len"]), oval(a.get("t0")), oval(a.get("si")), oval(a.get("rate")), oval(a.get("duration")), tm,
+    # the model gets the SHAPE of the data and takes the last axis itself (s_len is filled in by with_shape)
+    return "(ATs %s (mk_ts_args %s %s %s %s %s %s %s))" % (
+        llit([zlit(x) for x in list(a.get("lead") or []) + [a["len"]]]), zlit(0), oval(a.get("t0")), oval(a.get("si")), oval(a.get("rate")), oval(a.get("duration")), tm,
         uarg_coq(a["unit"]))
 
 
@@ -420,7 +431,7 @@ def finding_key(a, o, w, stage, ax):
 
 
 STATS = {"judged": 0, "max_n": 0, "max_extent_bits": 0, "n>=1025": 0, "n>=10^5": 0, "n=10^6": 0, "extent>=2^53": 0,
-         "interval_bits": {}, "given_axis_derivations": {}}
+         "interval_bits": {}, "given_axis_derivations": {}, "series_data_dims": {}}
 
 
 def note_judged(a, w, ax):
@@ -435,6 +446,9 @@ def note_judged(a, w, ax):
     STATS["extent>=2^53"] += ext >= 2 ** 53
     b = "2^%d" % (10 * (int(w["dt"]).bit_length() // 10))
     STATS["interval_bits"][b] = STATS["interval_bits"].get(b, 0) + 1
+    if a["act"] == "ts":
+        k = "%dd%s/%s" % (1 + len(a.get("lead") or []), "-list" if a.get("aslist") else "", pat_name(a))
+        STATS["series_data_dims"][k] = STATS["series_data_dims"].get(k, 0) + 1
     ad = a.get("data") or a.get("time")
     if ad is not None:
         k = ad.get("derive") or "ctor"
@@ -664,6 +678,23 @@ def sweep_actions():
             {"act": "ts", "len": n, "unit": "s", "rate": vint(44100)},
             {"act": "ts", "len": n, "unit": "s", "time": {"derive": "npcopy", "unit": "ms", "t0": 1, "dt": 2, "n": n}},
         ]
+    specs = [{"si": vflt(0.81327)}, {"si": vtime(2 * 10 ** 9, "ms")}, {"rate": vint(4)}, {"rate": vfreq(2.5)},
+             {"duration": vint(2)}, {"duration": vflt(2.2)}, {"duration": vtime(6 * 10 ** 12, "s")},
+             {"si": vint(2), "duration": vint(16)}, {"rate": vint(4), "duration": vint(2)}, {"time": "same"},
+             {"time": "same", "t0": vint(1)}, {"time": "other", "rate": vflt(0.5)}]
+    for lead in ([], [3], [1], [2, 3], [5, 1], [2, 1, 3], [7]):
+        for n in (8, 1, 7):
+            for sp in specs:
+                for aslist in ((False, True) if lead in ([3], [2, 3]) else (False,)):
+                    a = {"act": "ts", "len": n, "unit": "s", "lead": lead}
+                    a.update({k: v for k, v in sp.items() if k != "time"})
+                    if sp.get("time") == "same":
+                        a["time"] = {"derive": "ctor", "unit": "ms", "t0": 3, "dt": 2, "n": n}
+                    elif sp.get("time") == "other":
+                        a["time"] = {"derive": "ctor", "unit": "s", "t0": 0, "dt": 1, "n": 2 * n}
+                    if aslist:
+                        a["aslist"] = True
+                    out.append(a)
     for ext in (2 ** 53 - 1, 2 ** 53 + 1, 2 ** 60 + 1, 2 ** 62 - 2 ** 33):
         for n in (3, 1025, 99991, 10 ** 6):
             ps = ext // n
@@ -676,8 +707,21 @@ def sweep_actions():
     return out
 
 
+def add_lead(rng, a):
+    if a["act"] == "ts" and "lead" not in a:
+        lead = rng.choice(LEADS)
+        n = a["len"]
+        for x in lead:
+            n *= x
+        if n <= 2 * 10 ** 6:
+            a["lead"] = lead
+            if n <= 5000 and rng.random() < 0.2:
+                a["aslist"] = True
+    return a
+
+
 def gen_action(rng, ts):
-    a = gen_action0(rng, ts)
+    a = add_lead(rng, gen_action0(rng, ts))
     if rng.random() < 0.15:
         a["positional"] = True
     return a
